@@ -4,7 +4,7 @@
   the corresponding relation of Select/Replace/Run holds, so the theorems of Props.lean
   apply to every real execution the driver accepted.
 -/
-import Vita.C06.Run
+import Vita.C06.Evo
 namespace Vita.C06
 open FitOrd
 
@@ -231,6 +231,50 @@ theorem traceOKB_sound (cfg : Cfg α F) (st : St α F) (tr : List (Event α × S
     obtain ⟨ev, st'⟩ := e
     simp only [traceOKB, Bool.and_eq_true] at h
     have h1 : Reach cfg st st' := Reach.step _ _ _ (Reach.refl _) (transB_sound _ _ _ _ h.1)
+    intro s hs
+    simp only [List.map_cons, List.mem_cons] at hs
+    rcases hs with rfl | hs
+    · exact h1
+    · exact h1.trans (ih st' h.2 s hs)
+
+/-! ### sessions: several runs on one evolution object -/
+
+/-- the start of the next run as the model predicts it from the state the previous run ended in -/
+def restartB (cfg : Cfg α F) (t : ClearTbl) (d : α) (df : F) (st st' : St α F) : Bool :=
+  decide (st'.pop = st.pop) && decide (st'.sum = startSumm cfg.eval t d df (st.pop.get? (0, 0)) st.sum)
+
+/-- an observed event of a session -/
+inductive MEvent (α : Type)
+  | ev (e : Event α)       -- inside a run
+  | restart                -- `evolution::run` called again: stats_.clear(); best = pop[{0,0}]; …
+
+def mtransB (cfg : Cfg α F) (t : ClearTbl) (d : α) (df : F) (ev : MEvent α) (st st' : St α F) : Bool :=
+  match ev with
+  | .ev e => transB cfg e st st'
+  | .restart => restartB cfg t d df st st'
+
+theorem mtransB_sound (cfg : Cfg α F) (t : ClearTbl) (d : α) (df : F) (ev : MEvent α) (st st' : St α F)
+    (h : mtransB cfg t d df ev st st' = true) : MTrans cfg t d df st st' := by
+  cases ev with
+  | ev e => exact MTrans.run _ _ (transB_sound cfg e st st' h)
+  | restart =>
+    simp only [mtransB, restartB, Bool.and_eq_true, decide_eq_true_eq] at h
+    exact MTrans.restart _ _ h.1 h.2
+
+def mtraceOKB (cfg : Cfg α F) (t : ClearTbl) (d : α) (df : F) : St α F → List (MEvent α × St α F) → Bool
+  | _, [] => true
+  | st, (ev, st') :: rest => mtransB cfg t d df ev st st' && mtraceOKB cfg t d df st' rest
+
+theorem mtraceOKB_sound (cfg : Cfg α F) (t : ClearTbl) (d : α) (df : F) (st : St α F)
+    (tr : List (MEvent α × St α F)) (h : mtraceOKB cfg t d df st tr = true) :
+    ∀ s ∈ tr.map (·.2), MReach cfg t d df st s := by
+  induction tr generalizing st with
+  | nil => intro s hs; simp at hs
+  | cons e rest ih =>
+    obtain ⟨ev, st'⟩ := e
+    simp only [mtraceOKB, Bool.and_eq_true] at h
+    have h1 : MReach cfg t d df st st' :=
+      MReach.step _ _ _ (MReach.refl _) (mtransB_sound _ _ _ _ _ _ _ h.1)
     intro s hs
     simp only [List.map_cons, List.mem_cons] at hs
     rcases hs with rfl | hs
